@@ -266,6 +266,7 @@ fn type_is_ref(t: &syn::Type) -> bool { matches!(t, syn::Type::Reference(_)) }
 
 pub fn c08(cx: &Cx) -> i32 {
     let mut rep = cx.report("C08");
+    crate::misc::expand_self_rule(cx, &mut rep);
     let mut checked_ops = 0;
     for (variant, table, nforms) in [("BinaryOp", &BINOPS[..], 4usize), ("AssignOp", &BINOPS[..], 2), ("UnaryOp", &UNOPS[..], 2)] {
         let Some(r) = role(cx, "struct", variant) else { rep.fail("roles", "struct", variant, "role not found", "-", json!({})); continue };
@@ -423,6 +424,7 @@ fn check_debug_chain(rep: &mut Report, inst: &Instance, label: &str, site: &str,
 
 pub fn c10(cx: &Cx) -> i32 {
     let mut rep = cx.report("C10");
+    crate::misc::helper_name_rule(cx, &mut rep, "HelperAttributeForDebug", "debug");
     for kind in ["struct", "enum"] {
         let Some(r) = role(cx, kind, "Debug") else { rep.fail("roles", kind, "Debug", "role not found", "-", json!({})); continue };
         for nf in [0usize, 1, 2] {
@@ -593,6 +595,8 @@ fn check_default_fields(rep: &mut Report, inst: &Instance, label: &str, site: &s
 
 pub fn c11(cx: &Cx) -> i32 {
     let mut rep = cx.report("C11");
+    crate::misc::helper_name_rule(cx, &mut rep, "HelperAttributeForDefault", "default");
+    crate::misc::default_placeholder_rule(cx, &mut rep);
     // ---- struct
     if let Some(r) = role(cx, "struct", "Default") {
         let run = run(&cx.ix, r, None, CollMode::Summary, &[]);
@@ -845,6 +849,8 @@ pub fn c09(cx: &Cx) -> i32 {
     crate::misc::impl_helpers_rule(cx, &mut rep);
     crate::misc::impl_args_rule(cx, &mut rep);
     crate::misc::output_type_rule(cx, &mut rep);
+    crate::misc::op_parse_rule(cx, &mut rep);
+    crate::misc::expand_self_rule(cx, &mut rep);
     rep.assumptions = vec!["what the user's impl computes is not analysed; the analysis fixes that every generated form forwards once, in order, with the documented clone / reborrow adapters".into(), "operator name tables are checked by DM-op-tables (shared with C08)".into()];
     rep.finish("other", "static analysis: the builder for `impl` items is evaluated over base kind (Op / OpAssign) x base form (lhs by ref, rhs by ref) x requested set; the list of generated impls, their headers, Output, generics and the single forwarding call with its operand adapters are compared with the documented forwarding rules; change_owned, the reference-form detection and the Rhs default are checked as decision models", "rule instances = (rule, operator, configuration, generated impl)")
 }
